@@ -4,8 +4,9 @@ from framework import Case
 import ring_common as R
 
 PROP = 'C04'
-BUILDS, TRANSLATORS, MINIMISE, SHARD_TIMEOUT, ASSUMPTIONS, RULE = R.BUILDS, R.TRANSLATORS, R.MINIMISE, R.SHARD_TIMEOUT, R.ASSUMPTIONS, R.RULE
-EXTRA_THEOREM_MODULES = R.EXTRA_THEOREM_MODULES + ['DcVerif.Props.C05Gen', 'DcVerif.Lemmas.RingMultiPay', 'DcVerif.Lemmas.RingMultiDeliver']
+BUILDS, MINIMISE, SHARD_TIMEOUT, ASSUMPTIONS, RULE = R.BUILDS, R.MINIMISE, R.SHARD_TIMEOUT, R.ASSUMPTIONS, R.RULE
+TRANSLATORS = R.TRANSLATORS + ['spinwait']     # Gen/SpinWait.lean (get_min_cursor_sequence, one pass of the spin wait loop), Props/C13WaitGen.lean
+EXTRA_THEOREM_MODULES = R.EXTRA_THEOREM_MODULES + ['DcVerif.Props.C13WaitGen', 'DcVerif.Props.C05Gen', 'DcVerif.Lemmas.RingMultiPay', 'DcVerif.Lemmas.RingMultiDeliver']
 classify, nontrivial = R.classify, R.nontrivial
 
 
